@@ -126,6 +126,42 @@ func loadKnown(verifDir string) ([]KnownFinding, error) {
 	return out.Findings, nil
 }
 
+// Import copies into c, under the rule id asRule, the obligations that the run sub (of another property) recorded for
+// fromRule and whose key satisfies match. An obligation that is a recorded known finding of the source property is
+// not imported (it is reported by its own property). Returns the number of obligations imported.
+func (c *Ctx) Import(sub *Ctx, fromRule, asRule string, match func(key string) bool, verifDir string) int {
+	known, _ := loadKnown(verifDir)
+	n := 0
+	for _, o := range sub.Obs {
+		if o.Rule != fromRule || !match(o.Key) {
+			continue
+		}
+		skip := false
+		if o.st != OK {
+			for _, k := range known {
+				if k.Status == "known" && k.Property == sub.Prop && k.Rule == o.Rule && k.Key == o.Key {
+					skip = true
+				}
+			}
+		}
+		if skip {
+			continue
+		}
+		c.add(asRule, o.Key, o.Pos, o.Detail, o.st)
+		n++
+	}
+	for f := range sub.funcs {
+		c.funcs[f] = true
+	}
+	return n
+}
+
+// RuleIDs returns the declared rules in declaration order.
+func (c *Ctx) RuleIDs() []string { return append([]string{}, c.ruleOrder...) }
+
+// RuleDoc returns the documentation of a declared rule.
+func (c *Ctx) RuleDoc(id string) string { return c.ruleDoc[id] }
+
 // Finish prints the verdict lines, writes evidence + replay files and returns the exit code.
 func (c *Ctx) Finish(verifDir string, seed int, explanation string, trusted []string) int {
 	known, err := loadKnown(verifDir)
